@@ -97,7 +97,9 @@ CLAIMS.update({
     "C08": ("PARTIAL. Lean theorems, for every world and every queue state: one round of priority / priority-pool asks no pool for more CPU or RAM than it has free, so the executor's "
             "verify_valid_assignment accepts it (budget invariant through the three queue runs); the round's assignments are a chain of accepted Assignment constructions, hence no operator "
             "occurs twice, every operator was PENDING/FAILED and positive resources are requested; priority's suspensions name only active suspendable containers, so verify_valid_suspend "
-            "accepts them; naive and overbook: C17/C18 theorems. NOT proved: that the closed loop of rounds and executor ticks never raises over a whole run (it is false of the shipped code "
+            "accepts them; naive and overbook: C17/C18 theorems; the naive scheduler / starter template never raises in any well-formed world (`naive_round_never_raises`); EXECUTION NEVER GETS STUCK: on a "
+            "consistent container (head operator RUNNING once started, the rest ASSIGNED, every parent COMPLETED or earlier in the container) `Container.tick`, `kill` and `suspend` never raise, and phases 3-6 of "
+            "a pool tick (write-outs, ticks, both OOM-killer steps, collection) never raise on a consistent pool and keep it consistent (`pool_run_never_raises`, Proofs/Progress.lean). NOT proved: that the closed loop of rounds and executor ticks never raises over a whole run (it is false of the shipped code "
             "in one mode: known finding D11). Tie: closed-loop lock-step of each real scheduler + real Executor against the model on generated configurations (tiny pools, coarse ticks, "
             "zero-tick segments, both container modes, DAGs), run_simulator end-to-end incl. the `eudoxia init` template and short runs; `check_C08` on every implementation trace.",
             "Props/C08.lean; the run-to-the-end clause is decided by the tie (differential + Lean-defined checker on traces), not by a theorem"),
